@@ -17,7 +17,7 @@
    [dyn_ty]: reflect.TypeOf.  The universe covers arrays and defined container types. *)
 From Coq Require Import List Bool Arith NArith ZArith String Ascii.
 From Eino Require Import Base.Util Base.Universe Model.Ser Model.SerCheckpoint
-     Proofs.Ser Proofs.SerLoud Proofs.SerTop Proofs.SerRefl.
+     Proofs.Ser Proofs.SerLoud Proofs.SerTop Proofs.SerReg Proofs.SerRefl Proofs.SerTotal.
 Import ListNotations.
 
 (* 1. Round trip: whatever the encoder accepts comes back equivalent, with the identical
@@ -89,6 +89,41 @@ Theorem encoder_never_panics :
 Proof. exact enc_no_panic. Qed.
 Print Assumptions encoder_never_panics.
 
+(* 2c. Reading back never panics: for EVERY well-typed value that Marshal accepted - also
+       outside [safe] / [defs_ok], i.e. the inputs of the known findings F-C12c / F-C12g -
+       Unmarshal returns an error or a value of the type that was written (for a value of an
+       unregistered defined container type: of its underlying type), never a reflect panic;
+       in a typed position the restored value always has the position's type.  Nothing is
+       assumed of the JSON decoders except that they return errors instead of panicking. *)
+Theorem decoder_never_panics_on_encoder_output :
+  forall (J JK : Type) (jenc : base -> lit -> res J) (jdec : base -> J -> res lit)
+         (kenc : base -> lit -> res JK) (kdec : base -> JK -> res lit) (reg : registry) (env : senv)
+         (json_decoder_returns_errors : forall b j, jdec b j <> Panic)
+         (key_decoder_returns_errors : forall b j, kdec b j <> Panic)
+         (registry_names_unique : NoDup (map fst reg))
+         (field_names_unique : forall n ds, struct_fields env n = Some ds -> NoDup (map fst ds)),
+  forall v oi,
+    wt env v = true -> is_iface (ty_of v) = false ->
+    marshal J JK jenc kenc fixed reg v = Ok oi ->
+    unmarshal J JK jdec kdec fixed reg env oi <> Panic /\
+    forall v', unmarshal J JK jdec kdec fixed reg env oi = Ok v' ->
+      ty_of v' = ty_of v \/ exists d, ty_of v = TDef d (ty_of v').
+Proof. exact unmarshal_total_lemma. Qed.
+Print Assumptions decoder_never_panics_on_encoder_output.
+Theorem position_restore_never_panics :
+  forall (J JK : Type) (jenc : base -> lit -> res J) (jdec : base -> J -> res lit)
+         (kenc : base -> lit -> res JK) (kdec : base -> JK -> res lit) (reg : registry) (env : senv)
+         (json_decoder_returns_errors : forall b j, jdec b j <> Panic)
+         (key_decoder_returns_errors : forall b j, kdec b j <> Panic)
+         (registry_names_unique : NoDup (map fst reg))
+         (field_names_unique : forall n ds, struct_fields env n = Some ds -> NoDup (map fst ds)),
+  forall v oi,
+    wt env v = true -> enc_at J JK jenc kenc fixed reg 0 v = Ok oi ->
+    hole J JK env (dec J JK jdec kdec fixed reg env) (ty_of v) oi <> Panic /\
+    forall v', hole J JK env (dec J JK jdec kdec fixed reg env) (ty_of v) oi = Ok v' -> ty_of v' = ty_of v.
+Proof. exact position_total_lemma. Qed.
+Print Assumptions position_restore_never_panics.
+
 (* 3. Supported values are accepted and round-trip: well-typed, every looked-up type
       registered, every literal accepted by the JSON layer. *)
 Theorem supported_roundtrips :
@@ -140,6 +175,42 @@ Theorem checkpoint_roundtrip :
                 cp' ≅ cp /\ ty_of cp' = t_checkpoint_ptr.
 Proof. exact checkpoint_roundtrip_lemma. Qed.
 Print Assumptions checkpoint_roundtrip.
+
+(* 5b. The registry.  [register] models GenericRegister (pointers stripped, a taken key or
+       type refused).  Registrations keep names and types unique, so the hypothesis
+       [registry_names_unique] holds for every registry a process can have: init() of
+       serialization and of compose followed by any sequence of registrations - and 5 holds
+       for it without that hypothesis. *)
+Theorem registration_keeps_registry_wellformed : forall reg k t reg',
+  reg_wf reg -> register reg k t = Ok reg' -> reg_wf reg'.
+Proof. exact register_wf. Qed.
+Theorem duplicate_registration_refused : forall reg k t,
+  In k (map fst reg) \/ In (snd (strip_ptr t)) (map snd reg) -> exists e, register reg k t = Err e.
+Proof. exact register_refuses. Qed.
+Theorem process_registry_wellformed : forall l, reg_wf (register_all (ckpt_reg []) l).
+Proof. intro l. exact (register_all_wf l _ ckpt_reg_wf). Qed.
+Theorem checkpoint_roundtrip_any_registrations :
+  forall (J JK : Type) (jenc : base -> lit -> res J) (jdec : base -> J -> res lit)
+         (kenc : base -> lit -> res JK) (kdec : base -> JK -> res lit)
+         (registrations : list (string * ty)) (uenv : senv)
+         (json_roundtrip : forall b l j,
+             lit_in_base b l = true -> jsafe l = true -> jenc b l = Ok j -> jdec b j = Ok l)
+         (key_roundtrip : forall b l j,
+             lit_in_base b l = true -> jsafe l = true -> kenc b l = Ok j -> kdec b j = Ok l)
+         (field_names_unique : forall n ds, struct_fields (ckpt_senv uenv) n = Some ds -> NoDup (map fst ds)),
+    let reg := register_all (ckpt_reg []) registrations in
+    forall cp oi,
+      has_type (ckpt_senv uenv) cp t_checkpoint_ptr = true -> safe cp -> defs_ok reg cp ->
+      marshal J JK jenc kenc fixed reg cp = Ok oi ->
+      exists cp', unmarshal J JK jdec kdec fixed reg (ckpt_senv uenv) oi = Ok cp' /\
+                  cp' ≅ cp /\ ty_of cp' = t_checkpoint_ptr.
+Proof. exact checkpoint_roundtrip_registered_lemma. Qed.
+Print Assumptions checkpoint_roundtrip_any_registrations.
+Theorem checkpoint_types_stay_registered : forall l,
+  rm_lookup (register_all (ckpt_reg []) l) (TStruct S_CHECKPOINT) = Some "_eino_checkpoint"%string /\
+  rm_lookup (register_all (ckpt_reg []) l) (TStruct S_DAG) = Some "_eino_dag_channel"%string /\
+  rm_lookup (register_all (ckpt_reg []) l) (TStruct S_PREGEL) = Some "_eino_pregel_channel"%string.
+Proof. exact checkpoint_types_stay_registered. Qed.
 
 (* 6. Before the repairs the round trip was false ([rt_statement fx] is statement 4 for
       the code variant fx; it holds for [fixed]). *)
@@ -241,6 +312,18 @@ Proof.
   intro H. unfold defs_registered in H. simpl in H. inversion H as [|? ? _ H2]; subst.
   inversion H2 as [|? ? H3 _]; subst. now apply H3.
 Qed.
+(* 2c is not vacuous, and says something beyond 1: its hypotheses hold for the witnesses of
+   the known findings (which 1 excludes), the encoder accepts them *)
+Example never_panics_nonvacuous :
+  wt [] w_c = true /\ is_ok (enc_c fixed builtin_registry w_c) = true /\
+  wt [] w_g2 = true /\ is_ok (enc_c fixed builtin_registry w_g2) = true.
+Proof. vm_compute. repeat split. Qed.
+(* 5b is not vacuous: a registration that succeeds, one that is refused *)
+Example registration_nonvacuous :
+  is_ok (register (ckpt_reg []) "user_state" (TPtr (TStruct 7))) = true /\
+  register (ckpt_reg []) "_eino_int" (TStruct 7) = Err E_DUP /\
+  register (ckpt_reg []) "fresh" (TPtr (TBase BInt)) = Err E_DUP.
+Proof. vm_compute. repeat split. Qed.
 (* the hypotheses of 2: a registered struct holding a slice of an unregistered named type *)
 Example unsupported_nonvacuous :
   let v := VStruct 0 [("F"%string, VSlice (TNamed 8 BInt) None)] in
